@@ -229,7 +229,7 @@ def body(chk):
     for rd in range(n_pair_rounds):
         for ea, eb in pairs:
             for opn, op in OPS.items():
-                combos = [("m", "m"), ("m", "s"), ("", "kg"), ("", ""), ("m/s", "s"), ("kg*m/s**2", "m"), ("kg", "kg")]
+                combos = [("m", "m"), ("m", "s"), ("", "kg"), ("m", ""), ("s", ""), ("", ""), ("m/s", "s"), ("kg*m/s**2", "m"), ("kg", "kg")]
                 for ua, ub in (combos if rd == 0 else [(rng.choice(unit_names), rng.choice(unit_names)) for _ in range(3)]):
                     A = set_unit(make(ea, rng), ua)
                     B = set_unit(make(eb, rng), ub)
